@@ -124,8 +124,8 @@ typedef struct dns_opt_rr_s { /* RFC 2671 (Extension Mechanisms for DNS (EDNS0))
 	uint16_t	type;	/* = DNS_RR_TYPE_OPT. */
 	uint16_t	udp_payload_size;/* Sender's UDP payload size. */
 	//uint32_t	ttl;	/* Extended RCODE and flags. */
-	uint8_t		version; /* */
 	uint8_t		ex_rcode; /* Forms upper 8 bits of extended 12-bit RCODE. */
+	uint8_t		version; /* */
 	dns_ex_flags_t	ex_flags; /* Extended DNS header flags. */
 	// end ttl
 	uint16_t	rdlength; /* Describes RDATA. */
